@@ -1,1 +1,295 @@
-fn main(){}
+//! C18 monitor: calls the REAL table generator (crates/char_range_gen/src/main.rs, included by
+//! path from /repo's working tree, entry point behind the `verif` feature) on boundary-defined
+//! predicates and on the 20 real predicates, and checks its result against the closed-form answer
+//! and (for a sample) a brute-force pointwise comparison.
+#![allow(dead_code, unused_imports, clippy::all)]
+
+#[path = "/repo/crates/char_range_gen/src/main.rs"]
+mod gen;
+
+use std::cell::RefCell;
+use std::panic::{catch_unwind, AssertUnwindSafe};
+use std::sync::atomic::{AtomicUsize, Ordering};
+use std::sync::Mutex;
+use vmodel::class::{builtin_pred, BUILTIN_NAMES};
+use vmodel::json::J;
+use vmodel::rng::Rng;
+
+thread_local! {
+    static BOUNDS: RefCell<(Vec<u32>, bool)> = const { RefCell::new((Vec::new(), false)) };
+}
+
+/// Predicate defined by sorted boundaries: truth flips at every boundary; `polarity` is the value
+/// below the first boundary.
+fn pred(c: char) -> bool {
+    BOUNDS.with(|b| {
+        let b = b.borrow();
+        let v = c as u32;
+        let mut t = b.1;
+        for x in b.0.iter() {
+            if *x <= v {
+                t = !t;
+            } else {
+                break;
+            }
+        }
+        t
+    })
+}
+
+fn is_scalar(v: u32) -> bool {
+    char::from_u32(v).is_some()
+}
+
+/// Closed form: maximal ranges over scalar values of a boundary-defined predicate.
+fn expected(bounds: &[u32], polarity: bool) -> Vec<(u32, u32)> {
+    // numeric intervals where the predicate is true
+    let mut ivs: Vec<(u32, u32)> = vec![];
+    let mut t = polarity;
+    let mut start = 0u32;
+    for b in bounds {
+        if *b > 0x10FFFF {
+            break;
+        }
+        if t && *b > start {
+            ivs.push((start, *b - 1));
+        }
+        if *b >= start {
+            t = !t;
+            start = *b;
+        }
+    }
+    if t && start <= 0x10FFFF {
+        ivs.push((start, 0x10FFFF));
+    }
+    // clip around the surrogate gap
+    let mut clipped: Vec<(u32, u32)> = vec![];
+    for (a, b) in ivs {
+        // part below the gap
+        if a <= 0xD7FF {
+            clipped.push((a, b.min(0xD7FF)));
+        }
+        if b >= 0xE000 {
+            clipped.push((a.max(0xE000), b));
+        }
+    }
+    // merge pieces adjacent in scalar order
+    let mut out: Vec<(u32, u32)> = vec![];
+    for (a, b) in clipped {
+        if a > b {
+            continue;
+        }
+        match out.last_mut() {
+            Some(l) if l.1 + 1 == a || (l.1 == 0xD7FF && a == 0xE000) => l.1 = b,
+            _ => out.push((a, b)),
+        }
+    }
+    out
+}
+
+fn brute(f: fn(char) -> bool) -> Vec<(u32, u32)> {
+    // independent run-length encoding over the sequence of scalar values
+    let scalars = (0..=0x10FFFFu32).filter(|v| is_scalar(*v));
+    let mut out: Vec<(u32, u32)> = vec![];
+    let mut open: Option<(u32, u32)> = None;
+    for v in scalars {
+        let t = f(char::from_u32(v).unwrap());
+        match (&mut open, t) {
+            (Some(r), true) => r.1 = v,
+            (None, true) => open = Some((v, v)),
+            (Some(r), false) => {
+                out.push(*r);
+                open = None;
+            }
+            (None, false) => {}
+        }
+    }
+    if let Some(r) = open {
+        out.push(r);
+    }
+    out
+}
+
+fn well_formed(rs: &[(u32, u32)]) -> Option<String> {
+    for (a, b) in rs {
+        if !is_scalar(*a) || !is_scalar(*b) {
+            return Some(format!("range ({:#X}, {:#X}) has a non-scalar end point", a, b));
+        }
+        if a > b {
+            return Some(format!("inverted range ({:#X}, {:#X})", a, b));
+        }
+    }
+    for w in rs.windows(2) {
+        if w[0].1 >= w[1].0 {
+            return Some(format!("ranges ({:#X},{:#X}) and ({:#X},{:#X}) are unsorted or overlap", w[0].0, w[0].1, w[1].0, w[1].1));
+        }
+        if w[0].1 + 1 == w[1].0 || (w[0].1 == 0xD7FF && w[1].0 == 0xE000) {
+            return Some(format!("ranges ({:#X},{:#X}) and ({:#X},{:#X}) are adjacent (not maximal)", w[0].0, w[0].1, w[1].0, w[1].1));
+        }
+    }
+    None
+}
+
+fn fmt_ranges(rs: &[(u32, u32)]) -> String {
+    let v: Vec<String> = rs.iter().take(12).map(|(a, b)| format!("({:#X},{:#X})", a, b)).collect();
+    format!("[{}{}]", v.join(", "), if rs.len() > 12 { ", ..." } else { "" })
+}
+
+fn main() {
+    let tier = std::env::var("VERIF_TIER").unwrap_or_else(|_| "quick".into());
+    let seed: u64 = std::env::var("VERIF_SEED").ok().and_then(|s| s.parse().ok()).unwrap_or(1);
+    let threads: usize = std::env::var("VP_THREADS").ok().and_then(|s| s.parse().ok()).unwrap_or(16);
+    std::panic::set_hook(Box::new(|_| {}));
+    let mut rng = Rng::derive(seed, &[0xC18]);
+    let mut cands: Vec<u32> = vec![0, 1, 0x7F, 0xD7FE, 0xD7FF, 0xD800, 0xE000, 0xE001, 0x10FFFE, 0x10FFFF];
+    let n_rand = if tier == "quick" { 3 } else { 4 };
+    while cands.len() < 10 + n_rand {
+        let v = rng.below(0x110000) as u32;
+        if !cands.contains(&v) {
+            cands.push(v);
+        }
+    }
+    cands.sort();
+    let max_size = if tier == "quick" { 3 } else { cands.len() };
+    // enumerate subsets
+    let mut preds: Vec<(Vec<u32>, bool)> = vec![];
+    for mask in 0u32..(1 << cands.len()) {
+        if (mask.count_ones() as usize) > max_size {
+            continue;
+        }
+        let b: Vec<u32> = (0..cands.len()).filter(|i| mask >> i & 1 == 1).map(|i| cands[i]).collect();
+        preds.push((b.clone(), false));
+        preds.push((b, true));
+    }
+    let exhaustive = max_size == cands.len();
+    let next = AtomicUsize::new(0);
+    let viols: Mutex<Vec<J>> = Mutex::new(vec![]);
+    let nontrivial = AtomicUsize::new(0);
+    let brute_checked = AtomicUsize::new(0);
+    let brute_every = if tier == "quick" { 97 } else { 331 };
+    std::thread::scope(|sc| {
+        for _ in 0..threads {
+            sc.spawn(|| loop {
+                let i = next.fetch_add(1, Ordering::SeqCst);
+                if i >= preds.len() {
+                    break;
+                }
+                let (b, pol) = &preds[i];
+                BOUNDS.with(|x| *x.borrow_mut() = (b.clone(), *pol));
+                let want = expected(b, *pol);
+                let got = catch_unwind(AssertUnwindSafe(|| gen::verif_generate(pred)));
+                let mut problem: Option<String> = None;
+                match &got {
+                    Err(_) => problem = Some("generator panicked".to_string()),
+                    Ok(g) => {
+                        if let Some(p) = well_formed(g) {
+                            problem = Some(p);
+                        } else if *g != want {
+                            problem = Some(format!("output {} differs from the exact ranges {}", fmt_ranges(g), fmt_ranges(&want)));
+                        }
+                    }
+                }
+                if i % brute_every == 0 {
+                    // brute-force confirmation of the closed form itself
+                    let bf = brute(pred);
+                    brute_checked.fetch_add(1, Ordering::Relaxed);
+                    if bf != want {
+                        viols.lock().unwrap().push(
+                            J::obj()
+                                .with("harness", J::Bool(true))
+                                .with("what", J::s(&format!("closed form {} disagrees with brute force {} for boundaries {:X?} polarity {}", fmt_ranges(&want), fmt_ranges(&bf), b, pol))),
+                        );
+                    }
+                }
+                // non-trivial: holds at char::MAX, at U+D7FF, at U+E000 or at 0
+                let holds = |v: u32| pred(char::from_u32(v).unwrap());
+                if holds(0x10FFFF) || holds(0xD7FF) || holds(0xE000) || holds(0) {
+                    nontrivial.fetch_add(1, Ordering::Relaxed);
+                }
+                if let Some(p) = problem {
+                    let mut v = viols.lock().unwrap();
+                    if v.len() < 200 {
+                        v.push(
+                            J::obj()
+                                .with("property", J::s("C18"))
+                                .with("family", J::s("boundary predicate"))
+                                .with("index", J::i(i))
+                                .with("what", J::s(&format!("generate_char_fn_ranges: {}", p)))
+                                .with("definition", J::s(&format!("predicate flips at {:X?}, value below the first boundary: {}", b, pol)))
+                                .with("boundaries", J::Arr(b.iter().map(|x| J::Int(*x as i64)).collect()))
+                                .with("polarity", J::Bool(*pol)),
+                        );
+                    }
+                }
+            });
+        }
+    });
+    // the 20 real predicates
+    let mut real_checked = 0;
+    for name in BUILTIN_NAMES.iter() {
+        let f = builtin_pred(name).unwrap();
+        let want = brute(f);
+        let got = catch_unwind(AssertUnwindSafe(|| gen::verif_generate(f)));
+        real_checked += 1;
+        let problem = match &got {
+            Err(_) => Some("generator panicked".to_string()),
+            Ok(g) => well_formed(g).or_else(|| {
+                if *g != want {
+                    Some(format!("output has {} ranges, exact answer has {}", g.len(), want.len()))
+                } else {
+                    None
+                }
+            }),
+        };
+        if let Some(p) = problem {
+            viols.lock().unwrap().push(
+                J::obj()
+                    .with("property", J::s("C18"))
+                    .with("family", J::s("real predicate"))
+                    .with("index", J::i(real_checked))
+                    .with("what", J::s(&format!("generate_char_fn_ranges({}): {}", name, p)))
+                    .with("definition", J::s(name)),
+            );
+        }
+    }
+    let v = viols.lock().unwrap();
+    let mut n_v = 0;
+    for x in v.iter() {
+        let harness = matches!(x, J::Obj(m) if m.contains_key("harness"));
+        if harness {
+            println!("{}", J::obj().with("t", J::s("H")).with("msg", x.clone()).to_string());
+        } else {
+            n_v += 1;
+            if n_v <= 12 {
+                println!("{}", J::obj().with("t", J::s("V")).with("v", x.clone()).to_string());
+            }
+        }
+    }
+    println!(
+        "{}",
+        J::obj()
+            .with("t", J::s("S"))
+            .with("engine", J::s("tablegen_mon"))
+            .with("predicates", J::i(preds.len() + real_checked))
+            .with("boundary_predicates", J::i(preds.len()))
+            .with("real_predicates", J::i(real_checked))
+            .with("nontrivial", J::i(nontrivial.load(Ordering::Relaxed)))
+            .with("brute_force_confirmations", J::i(brute_checked.load(Ordering::Relaxed)))
+            .with("boundary_candidates", J::Arr(cands.iter().map(|c| J::Int(*c as i64)).collect()))
+            .with("max_subset_size", J::i(max_size))
+            .with("exhaustive", J::Bool(exhaustive))
+            .with("violations", J::i(n_v))
+            .with(
+                "samples",
+                J::Arr(
+                    preds
+                        .iter()
+                        .skip(preds.len() / 2)
+                        .take(2)
+                        .map(|(b, p)| J::s(&format!("flips at {:X?}, starts {} -> {}", b, p, fmt_ranges(&expected(b, *p)))))
+                        .collect(),
+                ),
+            )
+            .to_string()
+    );
+}
